@@ -30,3 +30,30 @@ HARNESS(h_c09_map) {
     for (long k = 0; k < 3 * (K + M); k++) OD(m.node_pos_lst[3 + k]);
     OD(m.node_pos_lst[0]); OD(m.node_pos_lst[1]); OD(m.node_pos_lst[2]);
 }
+
+// add_point_to_face + divide_faces on two triangles that share the cut edge (a,b).
+// iin: [threshold, a, b, c, d, P, Q, R, rotation of face 0 (0..2), rotation of face 1 (0..2), second cut edge of face 0 (0: b-c, 1: c-a),
+//       second cut edge of face 1 (0: a-d, 1: d-b), order (0: shared point first, 1: shared point last)]
+// faces before: f0 = (a,b,c), f1 = (b,a,d), each stored with the given rotation.  iout: [class 0 ok / 1 division_exception / 2 other, number of faces, then the faces (size, ids...)]
+HARNESS(h_c09_split) {
+    const long* I = io->iin;
+    const unsigned thr = (unsigned) I[0], a = (unsigned) I[1], b = (unsigned) I[2], c = (unsigned) I[3], d = (unsigned) I[4], P = (unsigned) I[5], Q = (unsigned) I[6], R = (unsigned) I[7];
+    mesh m;
+    m.node_pos_lst.assign(3 * 8, 0.);
+    unsigned f0[3] = {a, b, c}, f1[3] = {b, a, d};
+    std::vector<unsigned> g0, g1;
+    for (int k = 0; k < 3; k++) { g0.push_back(f0[(k + I[8]) % 3]); g1.push_back(f1[(k + I[9]) % 3]); }
+    m.face_point_ids.push_back(g0); m.face_point_ids.push_back(g1);
+    int cls = 0;
+    try {
+        if (I[12] == 0) { cell_divider::add_point_to_face(m, 0, a, b, P); cell_divider::add_point_to_face(m, 1, a, b, P); }
+        if (I[10] == 0) cell_divider::add_point_to_face(m, 0, b, c, Q); else cell_divider::add_point_to_face(m, 0, c, a, Q);
+        if (I[11] == 0) cell_divider::add_point_to_face(m, 1, a, d, R); else cell_divider::add_point_to_face(m, 1, d, b, R);
+        if (I[12] != 0) { cell_divider::add_point_to_face(m, 0, a, b, P); cell_divider::add_point_to_face(m, 1, a, b, P); }
+        cell_divider::divide_faces(m, thr);
+    }
+    catch (const division_exception& e) { cls = 1; }
+    catch (const std::exception& e) { cls = 2; }
+    OI(cls); OI(m.face_point_ids.size());
+    for (auto& f : m.face_point_ids) { OI(f.size()); for (unsigned v : f) OI(v); }
+}
